@@ -967,6 +967,93 @@ def c13(res, wd):
                 "with all inputs Confirmed and delayed as configured.  non-trivial = >=10 loads")
 
 
+# ---------------------------------------------------------------------------------------------
+# C16: builder validation and run-time misuse
+# ---------------------------------------------------------------------------------------------
+
+def c16(res, wd):
+    import re
+    core.build()
+    consts = {"Handles": "{0, 1, 2, 3}", "PlayerCounts": "{0, 1, 2, 3}", "Windows": "{0, 2}", "Delays": "{16}",
+              "FpsValues": "{0, 1}", "Intervals": "{0, 1}", "CheckDistances": "{0, 2}",
+              "BehindValues": "{0, 59, 60}", "CatchupValues": "{0, 3}", "MaxCalls": 3}
+    if res.tier == "thorough":
+        consts.update({"Handles": "{0, 1, 2, 3, 4}", "PlayerCounts": "{0, 1, 2, 3, 4}", "Windows": "{0, 1, 8, 16}",
+                       "Delays": "{0, 2, 16}", "CheckDistances": "{0, 1, 2, 4}", "MaxCalls": 4})
+    cfgp = os.path.join(wd, "builder.cfg")
+    engines.write_cfg(cfgp, "Spec", {k: str(v) for k, v in consts.items()}, invariants=["Emit"], view="View")
+    rc, out = core.tlc(os.path.join(core.SPEC, "Builder.tla"), cfgp, os.path.join(wd, "md_builder"), workers=1,
+                       timeout=2400, xmx="8g")
+    gen, dist = core.parse_tlc_stats(out)
+    if "Model checking completed" not in out:
+        raise core.ToolError("Builder.tla exploration failed: %s" % out[-1500:])
+    cases = os.path.join(wd, "builder_cases.ndjson")
+    n = 0
+    with open(cases, "w") as f:
+        for m in re.finditer(r'<<"BUILDER", "(.*)">>', out):
+            f.write(m.group(1).encode().decode("unicode_escape") + "\n")
+            n += 1
+    res.add_model("Builder", gen, dist, {"constants": consts, "configurations": n, "exhaustive": True})
+    outp = os.path.join(wd, "builder_mismatch.ndjson")
+    rc, o = core.sh([os.path.join(core.BIN, "builder"), cases, outp], timeout=1800)
+    if rc != 0:
+        raise core.ToolError("builder replay failed rc=%d: %s" % (rc, o[-1500:]))
+    summ = json.loads([l for l in o.splitlines() if l.startswith("{")][-1])
+    res.evaluations += summ["calls"]
+    res.nontrivial += summ["calls"]
+    res.traces += 1
+    res.extra["builder_replay"] = summ
+    res.add_sample({"builder_case": "history of <=%s calls + every next call, expected result from Builder.tla" % consts["MaxCalls"]})
+    if summ["mismatches"] or summ["panics"]:
+        with open(outp) as f:
+            bad = [json.loads(x) for x in f.readlines()[:3]]
+        rp = os.path.join(core.REPLAYS, "C16")
+        os.makedirs(rp, exist_ok=True)
+        rpath = os.path.join(rp, "builder_s%d.ndjson" % res.seed)
+        import shutil
+        shutil.copy(outp, rpath)
+        for b in bad:
+            res.violations.append({"prop": "C16", "code": "builder-result-differs-from-documentation"
+                                   if b["actual"] != "panic" else "builder-or-session-panicked",
+                                   "detail": b, "family": "builder", "cls": "builder", "replay": rpath})
+    # run-time misuse inserted at random points of otherwise valid runs; twin without misuse
+    rng = random.Random(res.seed * 1000 + 160)
+    nm, frames = sizes(res.tier, (12, 200), (80, 800))
+    ps = [plans.misuse(rng, frames) for _ in range(nm)]
+    engines.obs_runs(res, "C16", ps, {"C16", "C01", "C03", "C02"}, wd, "c16", nontrivial=lambda st, pl: st["ticks"] >= 100)
+    pairs = []
+    for i, pl in enumerate(ps[:sizes(res.tier, 5, 30)]):
+        q = json.loads(json.dumps(pl))
+        q["p_misuse"] = 0.0
+        q["seed"] += 5
+        pairs.append((i, pl, q))
+
+    def twin(job):
+        i, pl, q = job
+        a = os.path.join(wd, "mwa_%03d.ndjson" % i)
+        b = os.path.join(wd, "mwb_%03d.ndjson" % i)
+        core.drive([pl], a)
+        core.drive([q], b)
+        return i, a, b, engines.twin_compare(a, b, os.path.join(wd, "mdmw_%03d" % i))
+
+    for i, a, b, r in core.parallel(twin, pairs, n=6):
+        res.traces += 2
+        bad = {p: f for p, f in r["diff"].items() if f != -1}
+        if bad:
+            replay = core.save_replay("C16", a, 1, "twin_%03d_s%d" % (i, res.seed))
+            res.violations.append({"prop": "C16", "code": "misuse-changed-the-session-behaviour", "line": 0,
+                                   "detail": bad, "family": "twin", "cls": "twin", "replay": replay})
+    res.rule = ("Builder.tla = the documented validity rules as a state machine; TLC explores every call sequence up to "
+                "MaxCalls over small value domains (handles 0..4, player counts 0..4, windows {0,1,2,8,16}, delays "
+                "{0,2,16}, fps {0,1}, intervals {0,1}, check distances 0..4, max_frames_behind {0,59,60}, catch-up "
+                "{0,3}, sparse) and prints per distinct configuration its history and the expected result of every next "
+                "call; each (configuration, call) is replayed on the real SessionBuilder and every returned session is "
+                "polled/advanced 12 times under catch_unwind.  Run-time misuse (input for a non-local handle, advance "
+                "with a missing input / before synchronisation, disconnect of a local/unknown handle, delay change or "
+                "stats for the wrong player type) is inserted at random points of real runs with the documented result "
+                "as expectation judged by the monitor, and Trace_Twin.tla compares with the run without misuse.")
+
+
 CHECKS = {
     "C01": c01,
     "C02": c02,
@@ -982,6 +1069,7 @@ CHECKS = {
     "C12": c12,
     "C13": c13,
     "C14": c14,
+    "C16": c16,
 }
 
 
